@@ -28,6 +28,8 @@ datagram send; what the code does there is recorded in the evidence only.
 """
 import errno
 
+from vf.core import exc_key
+
 from vf.iodoubles import (FULL, ERR, SSLE, DATA, GRAM, RET, WOULDBLOCK, WANT_READ, WANT_WRITE,
                           LOSS_ERRNOS, OTHER_ERRNOS, FakeSocket, FakeUdpHandler,
                           client_on_double, incomer_on_double, item_name, PEER)
@@ -106,6 +108,21 @@ def after_cutoff_case(ctx, cls, how, op, cat, item):
     if obj.cutoff is not True:
         ctx.hit("after_cutoff_setup_did_not_cut_off")
         return
+    if cls.startswith("Client") and not cls.endswith("Reconnectable") and hasattr(obj, "serviceConnect"):
+        # the owner keeps servicing the client: the mark stays (only a reopen makes a new connection)
+        same = obj.cs
+        try:
+            obj.serviceConnect()
+            obj.serviceConnect()
+        except Exception as ex:      # noqa
+            ctx.fail("%s/serviceConnect-after-cutoff/raises/%s" % (cls, exc_key(ex)),
+                     "%s.serviceConnect on the cut off connection raised %r" % (cls, ex), dict(row))
+            return
+        ctx.hit("service_connect_after_cutoff")
+        if not ctx.check(obj.cutoff is True and obj.cs is same, "%s/cutoff-mark-lost-without-reopen" % cls,
+                         "%s: after %s marked the connection cut off, serviceConnect() cleared the mark (cutoff=%s) without a reopen" % (
+                             cls, how, obj.cutoff), lambda: dict(row, cutoff=obj.cutoff, connected=obj.connected)):
+            return
     ctx.hit("after_cutoff_%s_%s" % (op, cat))
     fake.script("send" if op == "send" else "recv", [item])
     nraised = len(fake.raised)
@@ -559,4 +576,5 @@ def run(ctx):
     ctx.floor("distinct_nontrivial", 800)
     ctx.floor("rows_on_reconnectable_clients", 200)
     ctx.floor("after_cutoff_send_other", 40)
+    ctx.floor("service_connect_after_cutoff", 100)
     ctx.floor("after_cutoff_recv_other", 40)
